@@ -396,6 +396,20 @@ func runConc(t *testing.T, rc *RunCtx, prop string) {
 	// cancelled at a point the schedule chooses, independently of which thread runs next).
 	abandon := ch.Pick(3, 0) == 2
 	cfg := SchedCfg{StayBias: stay, MaxSteps: 8 * budget, DeadlockProperty: prop}
+	// C15 only, a quarter of the runs: storage operations fail at a drawn rate (reads, single and batch writes).
+	// Requests must still all return and leave nothing locked; what they answer is C06's business.
+	faulty := prop == "C15" && ch.Pick(4, 0) == 3
+	if faulty {
+		den := []int{3, 6, 12}[ch.Pick(3, 0)]
+		cfg.Fault = func(s *Sched, p *Park) Resume {
+			if p.Kind == KPoint && ch.Chance(1, den) {
+				rc.Stats.Inc("fault_store-"+p.Label, 1)
+				return Resume{Err: ErrInjected, Fault: "store-" + p.Label}
+			}
+			return Resume{}
+		}
+		rc.Stats.Inc("runs_with_storage_faults", 1)
+	}
 	var w *concWorld
 	if abandon {
 		cfg.Action = func(s *Sched, parked []*Park) bool { return w.abandonOne(s) }
@@ -489,6 +503,10 @@ func runConc(t *testing.T, rc *RunCtx, prop string) {
 	if overlap {
 		rc.Stats.Seen("cases", w.s.ScheduleSignature()+hexShort(h32(desc)))
 		rc.Stats.Inc("probe_overlapping_requests", 1)
+	}
+	if faulty {
+		// Verdicts under injected storage errors follow no sequential model; completion has been checked.
+		return
 	}
 	var export map[string]Watermark
 	var err error
